@@ -106,7 +106,23 @@ Lemma pf_kernel_public2 sections left_pad right_pad h :
   1 <= sections -> 0 <= left_pad -> 0 <= right_pad -> 0 <= h ->
   spec (pf_kernel_call2 sections left_pad right_pad h) (fun _ => True).
 Proof.
-  intros. unfold pf_kernel_call2. pose proof (pf_y_len_ok sections left_pad right_pad). apply dmma_spec; lia.
+  intros. unfold pf_kernel_call2, pf_data_len. pose proof (pf_y_len_ok sections left_pad right_pad). apply dmma_spec; lia.
+Qed.
+
+(* the sequence branch as coded now never reaches compiled code: data_len is an ndarray *)
+Lemma pf_sequence_rejected : pf_seq_data_len_is_int = false.
+Proof. reflexivity. Qed.
+
+(* and in general: whatever integer expression the source passes as data_len in the sequence branch, it
+   must be provably within [1, len(y_truncated)] for every k and every number of distinct indices *)
+Lemma pf_seq_kernel_public k uniq size left_pad right_pad h :
+  0 <= k -> 2 <= uniq <= k + 2 -> 1 <= size -> 0 <= left_pad <= 1 -> 0 <= right_pad <= 1 -> 0 <= h ->
+  spec (pf_seq_kernel_call k uniq size left_pad right_pad h) (fun _ => True).
+Proof.
+  intros. unfold pf_seq_kernel_call. destruct pf_seq_data_len_is_int eqn:E.
+  - first [ unfold pf_seq_data_len_is_int in E; discriminate E
+          | apply dmma_spec; unfold pf_seq_y_len, pf_seq_data_len; lia ].
+  - apply spec_ret. exact I.
 Qed.
 
 (* ---- corner_cutting *)
